@@ -99,7 +99,8 @@ func frontExec(b *spec.Built, n *spec.Node, rec any, front string, prefill any, 
 	panic("unknown front " + front)
 }
 
-// addStray puts a value under the own key of every nested struct field: flat sources must ignore it.
+// addStray puts a value under the own key of every nested struct field, and a `key[]` parameter next to every absent field
+// keyed `key`: flat sources must ignore both.
 func addStray(n *spec.Node, tag string, vals url.Values) {
 	for n.Kind == spec.Ptr {
 		n = n.Elem
@@ -109,6 +110,15 @@ func addStray(n *spec.Node, tag string, vals url.Values) {
 		if f.Node.Kind == spec.Struct {
 			vals.Set(f.DataKey(tag), "stray-value")
 			addStray(f.Node, tag, vals)
+			continue
+		}
+		// a parameter that merely looks like the key of an absent field (other spelling of the name): not that field's value
+		if k := f.DataKey(tag); tag != "env" && !strings.HasSuffix(k, "[]") {
+			if _, present := vals[k]; !present {
+				if _, taken := vals[k+"[]"]; !taken {
+					vals[k+"[]"] = []string{"stray1", "stray2"}
+				}
+			}
 		}
 	}
 }
